@@ -163,15 +163,58 @@ class Harness:
 
 
 def fuzz(cfiles, contract, trials=200, seed=0, lib="phonopy"):
-    """Returns a replay dict: reproduced + first failing input."""
+    """Runs _fuzz in a forked child: the real (possibly changed) C function is executed on generated inputs, and a function
+    that writes out of bounds must take down the child, not the checker.  A child killed by a signal is a failing input."""
+    import multiprocessing as mp
     if contract.gen is None:
         return {"reproduced": False, "reason": "contract has no input generator"}
+    ctx = mp.get_context("fork")
+    parent, child = ctx.Pipe(duplex=False)
+
+    def work():
+        try:
+            child.send(("done", _fuzz(cfiles, contract, trials, seed, lib, progress=lambda t: child.send(("trial", t)))))
+        except Exception as e:      # noqa: BLE001
+            child.send(("done", {"reproduced": False, "reason": "replay harness error: %r" % (e,)}))
+        finally:
+            child.close()
+    p = ctx.Process(target=work)
+    p.start()
+    child.close()
+    last, res = None, None
+    while True:
+        try:
+            kind, val = parent.recv()
+        except EOFError:
+            break
+        if kind == "trial":
+            last = val
+        else:
+            res = val
+            break
+    p.join()
+    if res is not None:
+        return res
+    rnd = random.Random(seed)
+    inputs = None
+    for t in range((last or 0) + 1):
+        inputs = contract.gen(rnd)
+    return {"reproduced": True, "violated_clauses": ["(the real function crashed)"], "trial": last,
+            "real_code": {"crash": "the real function terminated the replay process with signal %s on a generated, precondition-satisfying input" % (-p.exitcode if p.exitcode and p.exitcode < 0 else p.exitcode),
+                          "inputs": {k: (v.tolist() if isinstance(v, np.ndarray) else v) for k, v in (inputs or {}).items()}},
+            "expected": "the function returns, touching only the arrays it is given"}
+
+
+def _fuzz(cfiles, contract, trials=200, seed=0, lib="phonopy", progress=None):
+    """Returns a replay dict: reproduced + first failing input."""
     h = Harness(cfiles, contract, lib=lib)
     rnd = random.Random(seed)
     nrun = 0
     skipped = None
     for t in range(trials):
         inputs = contract.gen(rnd)
+        if progress:
+            progress(t)
         bad, info = h.run(inputs)
         if bad is None:
             skipped = info
